@@ -201,10 +201,15 @@ def toVal : GoVal → Rules.Val
   | .bin s => .other ("bin:" ++ s)
 
 def rulesSpan (D : Dec) (s : ESpan) : Rules.Span :=
-  ⟨(goSpan D s).map fun kv => (kv.1, toVal kv.2)⟩
+  { data := (goSpan D s).map fun kv => (kv.1, toVal kv.2) }
+
+/-- the trace as the rules model takes it, with the model's defaults for everything else
+(`CheckNestedFields` off, no map-valued fields: values here are scalars) -/
+def mkRulesTrace (spans : List Rules.Span) (root : Option Rules.Span) : Rules.Trace :=
+  { spans := spans, root := root }
 
 def rulesTrace (D : Dec) (t : ETrace) : Rules.Trace :=
-  ⟨t.spans.map (rulesSpan D), t.root.map (rulesSpan D)⟩
+  mkRulesTrace (t.spans.map (rulesSpan D)) (t.root.map (rulesSpan D))
 
 /-! ## bridge to the trace-key model: int64 and uint64 are its integer values (rendered as their
 decimal by `AddAsString` and `%v` alike), string / bool / nil its plain values; float64, float32 and
@@ -227,7 +232,7 @@ def keySpan (D : Dec) (s : ESpan) : TraceKey.Span :=
   (goSpan D s).map fun kv => (kv.1, toTK kv.2)
 
 def keyTrace (D : Dec) (t : ETrace) : TraceKey.Trace :=
-  ⟨t.spans.map (keySpan D), t.root.map (keySpan D)⟩
+  { spans := t.spans.map (keySpan D), root := t.root.map (keySpan D) }
 
 /-! ## the samplers -/
 
@@ -268,7 +273,7 @@ def downOf (S : Samplers) (kt : TraceKey.Trace) (id : Nat) : Option Rules.DownRe
   | .fixed d => some d
   | .keyed c ans reason =>
     let k := TraceKey.key S.cap S.pre S.render c kt
-    some ⟨(ans k kt.spans.length).1, (ans k kt.spans.length).2, reason, k⟩
+    some { rate := (ans k kt.spans.length).1, keep := (ans k kt.spans.length).2, reason := reason, key := k }
 
 /-- `config.GetKeyFields` on the configured samplers' `GetSamplingFields`: the condition fields of
 every rule, the downstream samplers' and the dynamic sampler's key fields, with the `root.` prefix
